@@ -436,6 +436,13 @@ def random_nd(ctx, sub):
         if not subregions:
             lo, hi = gen.rand_box(rng, spec.n)
             subregions = {"only": spec.box_region(lo, hi)}
+        if rng.random() < 0.6:
+            # a subregion that is exactly the first / last layer of cells along one axis
+            # (its face coincides with the single-layer selection Field.diff makes)
+            lo, hi = gen.rand_box(rng, spec.n)
+            j = ax if rng.random() < 0.6 else int(rng.integers(0, nd))
+            lo[j], hi[j] = (0, 1) if rng.random() < 0.7 else (spec.n[j] - 1, spec.n[j])
+            subregions["layer"] = spec.box_region(lo, hi)
     mesh = spec.mesh(subregions=subregions, bc=bc)
     dx = float(mesh.cell[ax])
     order = int(rng.integers(1, 3))
